@@ -26,7 +26,7 @@ type fuzzTarget struct {
 	fn    string // Fuzz function in harness/c08/fuzz
 	entry string
 	langs []textmut.Lang
-	execs int // fuzz iterations (-fuzztime=Nx): ≈ 60–90 s with 16 workers on an otherwise idle 16-core machine
+	execs int // fuzz iterations (-fuzztime=Nx): ≈ 60–90 s with 8 workers on an otherwise idle 16-core machine
 }
 
 // The campaign is bounded by iteration counts, not by time, so that a loaded
@@ -34,13 +34,13 @@ type fuzzTarget struct {
 // target only protects the driver's process time-out (hitting it is noted as
 // inconclusive, never as a violation).
 var fuzzTargets = []fuzzTarget{
-	{"FuzzFormat", "format", []textmut.Lang{textmut.Wa, textmut.Wz}, 60000},
-	{"FuzzSyntax", "syntax", []textmut.Lang{textmut.Wa, textmut.Wz, textmut.Wat, textmut.Asm}, 600000},
-	{"FuzzParseWa", "parse_wa", []textmut.Lang{textmut.Wa}, 120000},
-	{"FuzzParseWz", "parse_wz", []textmut.Lang{textmut.Wz}, 120000},
-	{"FuzzLoad", "load", []textmut.Lang{textmut.Wa, textmut.Wz}, 12000},
-	{"FuzzWat", "wat_parse", []textmut.Lang{textmut.Wat}, 200000},
-	{"FuzzNative", "native_parse", []textmut.Lang{textmut.Asm}, 300000},
+	{"FuzzFormat", "format", []textmut.Lang{textmut.Wa, textmut.Wz}, 40000},
+	{"FuzzSyntax", "syntax", []textmut.Lang{textmut.Wa, textmut.Wz, textmut.Wat, textmut.Asm}, 400000},
+	{"FuzzParseWa", "parse_wa", []textmut.Lang{textmut.Wa}, 80000},
+	{"FuzzParseWz", "parse_wz", []textmut.Lang{textmut.Wz}, 80000},
+	{"FuzzLoad", "load", []textmut.Lang{textmut.Wa, textmut.Wz}, 8000},
+	{"FuzzWat", "wat_parse", []textmut.Lang{textmut.Wat}, 150000},
+	{"FuzzNative", "native_parse", []textmut.Lang{textmut.Asm}, 200000},
 }
 
 // fuzzNames mirrors harness/c08/fuzz.Names (index = the fuzz target's uint8 argument).
@@ -133,7 +133,7 @@ var execsRe = regexp.MustCompile(`execs: (\d+)`)
 var seedFailRe = regexp.MustCompile(`failure while testing seed corpus entry: \w+/(seed-\d+)`)
 
 // TestFuzzCampaign runs the native fuzz targets of harness/c08/fuzz, one after
-// the other (each with 16 fuzz workers), seeded with the textmut corpus.  The
+// the other (each with 8 fuzz workers), seeded with the textmut corpus.  The
 // fuzzer works in-process and cannot be seeded with VERIF_SEED, so nothing it
 // says is taken at face value: every crasher is re-run through the worker-based
 // oracle (Evaluate) and only what reproduces there is reported.  Finding
@@ -144,7 +144,7 @@ func TestFuzzCampaign(t *testing.T) {
 	}
 	s := core.NewStats(Prop, "FuzzCampaign")
 	defer s.Flush()
-	s.Rule("native go test -fuzz, in-process targets per entry point (16 fuzz workers, a fixed number of fuzz iterations per target: 12000 for load … 600000 for syntax, ≈ 60–90 s each on an idle machine, wall-clock cap 300 s) seeded with the repository corpus and the hostile constants that pass the worker oracle; every crasher and every new-coverage input the fuzzer kept (≤ 1500 per target) is re-evaluated through the worker oracle, which alone decides; evaluations = inputs re-evaluated there (fuzzer executions are reported as the counter native_fuzz_execs); non-trivial as in the rapid tier")
+	s.Rule("native go test -fuzz, in-process targets per entry point (8 fuzz workers next to the 16 rapid shards, a fixed number of fuzz iterations per target: 8000 for load … 400000 for syntax, ≈ 60–90 s each on an idle machine, wall-clock cap 300 s) seeded with the repository corpus and the hostile constants that pass the worker oracle; every crasher and every new-coverage input the fuzzer kept (≤ 1500 per target) is re-evaluated through the worker oracle, which alone decides; evaluations = inputs re-evaluated there (fuzzer executions are reported as the counter native_fuzz_execs); non-trivial as in the rapid tier")
 	mf, ok := modfileFlag()
 	if !ok {
 		s.Note("native fuzzing skipped: VERIF_REPO is a scratch copy but no alternate go.mod was found")
@@ -165,7 +165,7 @@ func TestFuzzCampaign(t *testing.T) {
 		t.Fatalf("harness: cannot build the fuzz targets: %v\n%s", err, out)
 	}
 	fuzzTime := envInt("C08_FUZZTIME", 300) // wall-clock cap per target, seconds
-	workers := envInt("C08_FUZZWORKERS", 16)
+	workers := envInt("C08_FUZZWORKERS", 8) // the 16 rapid shards run at the same time
 	only := os.Getenv("C08_FUZZ_ONLY")
 	for _, ft := range fuzzTargets {
 		if only != "" && only != ft.fn {
